@@ -224,6 +224,10 @@ class RegionMask:
             if isinstance(weighted_cutout, u.Quantity):
                 # as in cutout(), the fill value is in the data units
                 fill_value = fill_value << weighted_cutout.unit
+            elif (not np.isfinite(fill_value)
+                  and weighted_cutout.dtype.kind in 'iub'):
+                # as in cutout(), a non-finite fill value needs a float array
+                weighted_cutout = weighted_cutout.astype(float)
             weighted_cutout[self._mask] = fill_value
 
             return weighted_cutout
